@@ -22,3 +22,32 @@ impl AHashSet<u64> {
         unimplemented!()
     }
 }
+
+impl AHashSet<u64> {
+    /// TRUSTED (ahash / std HashSet): a new set is empty
+    #[verifier::external_body]
+    pub fn new() -> (r: AHashSet<u64>)
+        ensures
+            r.view() == Set::<u64>::empty(),
+    {
+        unimplemented!()
+    }
+
+    /// TRUSTED (ahash / std HashSet): insert adds the value and nothing else
+    #[verifier::external_body]
+    pub fn insert(&mut self, v: u64) -> (r: bool)
+        ensures
+            final(self).view() == old(self).view().insert(v),
+    {
+        unimplemented!()
+    }
+}
+
+/// TRUSTED (std): `vec.into_iter().collect::<AHashSet<u64>>()` holds exactly the values of the vector
+#[verifier::external_body]
+pub fn set_from_vec(v: Vec<u64>) -> (r: AHashSet<u64>)
+    ensures
+        forall|x: u64| r.view().contains(x) <==> exists|k: int| 0 <= k < v@.len() && v@[k] == x,
+{
+    unimplemented!()
+}
